@@ -117,12 +117,23 @@ pub type CaseOutcome = (CaseInfo, Option<Violation>);
 /// end-state violation that needs a lucky interleaving is reproduced instead of being dismissed as "flaky".
 pub static CONFIRMING: AtomicBool = AtomicBool::new(false);
 
-/// Repetitions for a non-deterministic (free-running) case.
+/// Repetitions for a non-deterministic (free-running) case: once while searching; while a failure is being shrunk /
+/// confirmed, at least 60 times and then for as long as `free_budget()` lasts (a window of a few tens of nanoseconds
+/// needs thousands of runs; the budget only decides how hard a *found* failure is looked for again - running out of it
+/// means "did not reproduce", never a violation).
 pub fn free_reps() -> usize {
     if CONFIRMING.load(Ordering::Relaxed) {
         60
     } else {
         1
+    }
+}
+
+pub fn free_budget() -> std::time::Duration {
+    if CONFIRMING.load(Ordering::Relaxed) {
+        std::time::Duration::from_millis(1500)
+    } else {
+        std::time::Duration::ZERO
     }
 }
 
